@@ -233,6 +233,13 @@ def engine_sweep(ctx, res, scenarios, owners=None, corr_profiles=("stable", "wil
         if status == "mismatch" and prof in corr_profiles:
             res.corr_details.append({"id": sc["id"], "status": status, "detail": detail[:500], "scenario": sc})
             res.corr_broken = True
+            if ".calls" in detail and "C13" in want:
+                # the real engine evaluated a counted method more often (or differently) than the at-most-once model
+                for op, gr, lr in zip(sc["ops"], g.get("res", []), l.get("res", [])):
+                    if op.get("op") == "exec" and len(gr.get("calls") or []) > len(lr.get("calls") or []):
+                        res.violations.append({"signature": "oracle:extra-method-evaluation", "detail": detail[:300], "scenario": sc,
+                                               "impl": {"calls": gr.get("calls")}, "model": {"calls": lr.get("calls")}})
+                        break
         key = scenario_key(sc)
         if nontrivial(g) and key not in res._distinct:
             res._distinct.add(key)
@@ -284,7 +291,7 @@ def extra_owners(sc):
     out = []
     if "Retract(" in txt or "Complete(" in txt:
         out.append("C10")
-    if any(k in txt for k in ("Boom(", "FailAt(", "F.Q.N", "Z.x", "F.Nope", '"zz"', "% 0", "[7]", "[-1]", 'Heavy("x")')):
+    if sc.get("holes") or any(k in txt for k in ("Boom(", "FailAt(", "F.Q.N", "Z.x", "F.Nope", '"zz"', "% 0", "[7]", "[-1]", 'Heavy("x")', "[F.J]")):
         out.append("C14")
     if "Heavy(" in txt or "Sum(" in txt or "Str(" in txt or "Half(" in txt or "Neg(" in txt:
         out.append("C13")
@@ -331,7 +338,7 @@ ENGINE_RULE = ("engine scenarios: 1-5 type-directed rules over a 3-6 cell pool o
                "non-trivial = some run fired at least two rules")
 
 
-def run_engine_generic(ctx, mix=(("stable", 6), ("wild", 3), ("faulty", 1)), quick=300, thorough=6000, owners=None):
+def run_engine_generic(ctx, mix=(("stable", 6), ("wild", 3), ("faulty", 1)), quick=1000, thorough=12000, owners=None):
     res = Result()
     res.rule = ENGINE_RULE
     scs = corpus(ctx.prop) + gen_engine(ctx, ctx.n(quick, thorough), list(mix), ctx.prop)
